@@ -311,7 +311,17 @@ pub fn eval_transfer<'a>(
     }
 
     let domain = match transfer.domain() {
-        Some(term) => cast_content(eval_terminal(ctx, term, AnnRef::default())?),
+        Some(term) => {
+            let span = term.node().span();
+            let value = eval_terminal(ctx, term, AnnRef::default())?;
+            // Ranges share the content type tag but a request has a single content.
+            if matches!(value.0, Expr::Ranges(_)) {
+                return Err(
+                    Error::new(Kind::InvalidType, "ill-formed domain, not a content").at(span),
+                );
+            }
+            cast_content(value)
+        }
         None => Content::default(),
     };
 
